@@ -83,9 +83,9 @@ def run_task(name, build, mode="U"):
         res.meta["stopped_early"] = I.stopped
         # premises must be satisfiable on at least one complete path (contradictory axioms / requires prove anything)
         cov = []
-        for pth in [p for p in live if p.outcome[0] != "stop"][:2] or live[:1]:
+        for pth in [p for p in live if p.outcome[0] != "stop"][:1] or live[:1]:
             I.path = pth
-            cov.append(I.cover(pth, int(res.meta.get("cover_timeout_ms", 10000))))
+            cov.append(I.cover(pth, int(res.meta.get("cover_timeout_ms", 2500))))
         res.meta["cover"] = cov
         if cov and all(c == "unsat" for c in cov):
             res.status = "undecided"
